@@ -220,8 +220,11 @@ def main(argv=None):
         except core.HarnessError as e:
             harness.append(f"regression {rf}: {e}")
     for kf in opens:
-        sub = subs.get(kf["subcheck"])
-        if sub is None:
+        # `subcheck=a,b,c`: the reproducer is replayed on the first sub-check; while it still fails the finding is active
+        # for every listed sub-check (one root cause reachable through several entry points)
+        kf_subs = kf["subcheck"].split(",")
+        sub = subs.get(kf_subs[0])
+        if sub is None or any(x not in subs for x in kf_subs):
             harness.append(f"known finding {kf['id']} names unknown sub-check {kf['subcheck']}")
             continue
         rep = kf.get("reproducer")
@@ -238,15 +241,16 @@ def main(argv=None):
                     still = False
                     # a different failure of the reproducer is an unlisted violation
                     os.makedirs(replay_dir, exist_ok=True)
-                    rp = os.path.join(replay_dir, f"{kf['subcheck']}-reproducer-{kf['id']}.json")
-                    json.dump({"property": prop, "subcheck": kf["subcheck"], "case": rep, "reason": v.reason,
+                    rp = os.path.join(replay_dir, f"{kf_subs[0]}-reproducer-{kf['id']}.json")
+                    json.dump({"property": prop, "subcheck": kf_subs[0], "case": rep, "reason": v.reason,
                                "info": core.jsonable(v.info)}, open(rp, "w"))
-                    violations.append({"subcheck": kf["subcheck"], "replay": os.path.relpath(rp, ROOT), "reason": v.reason})
+                    violations.append({"subcheck": kf_subs[0], "replay": os.path.relpath(rp, ROOT), "reason": v.reason})
             except core.HarnessError as e:
                 harness.append(f"known finding {kf['id']} reproducer: {e}")
         if still:
             known_lines.append(f"KNOWN-FINDING: property={prop} {kf['id']} {kf['text']}")
-            active_known[kf["subcheck"]].append({"id": kf["id"], "match": kf["match"]})
+            for x in kf_subs:
+                active_known[x].append({"id": kf["id"], "match": kf["match"]})
 
     # 2. generated search --------------------------------------------------------
     jobs = []
